@@ -21,6 +21,11 @@ from hypothesis import strategies as st
 from tqv import gen
 from tqv.core import SubCheck, Violation, req
 
+# caller-owned arrays handed to the library must come back unchanged (see tqv/purity.py)
+from tqv.purity import install as _install_purity  # noqa: E402
+
+_install_purity('toqito.state_metrics', 'toqito.matrix_props')
+
 PROPERTY = "C13"
 RULE = (
     "Cases are drawn by Hypothesis: dimension d in 2..6, real/complex flag, a pair family (generic, equal, equal pure, "
